@@ -50,7 +50,12 @@ type Thread struct {
 	// race-mode sync cells: syncA is released by this thread before it parks,
 	// syncB is released by the partner that completes a rendezvous for it.
 	syncA, syncB *byte
-	syncGo       *byte // released by the parent at the go statement, acquired by the thread when it starts
+	// fairness of repeated selects (see Select)
+	selSite string
+	selMask uint64
+	selRot  int
+	selAt   int
+	syncGo  *byte // released by the parent at the go statement, acquired by the thread when it starts
 }
 
 type PanicInfo struct {
